@@ -8,7 +8,7 @@
    accepts, and returns the state unchanged when it declines. *)
 From Coq Require Import String.
 From MdIt Require Import Prims Tables Escape NormRef Indent Mdurl LinkParse Tree HtmlRe Block.
-From MdIt Require Import BlockProofs.
+From MdIt Require Import BlockProofs BlockRangeDefs.
 From Coq Require Import Lia ZifyBool ZifyN ZifyNat.
 Local Open Scope list_scope.
 Local Open Scope N_scope.
@@ -61,20 +61,61 @@ Proof.
   replace (l_first r <=? len (l_text r)) with true by lia. exact I.
 Qed.
 
-Lemma np_pos_first st l : binv st -> (l < b_max st)%nat -> np (fun _ => True) (pos_first st l).
-Proof. intros Hi Hl. unfold pos_first. eapply np_bind; [apply np_line_rec; assumption|]. intros; exact I. Qed.
-Lemma np_pos_end st l : binv st -> (l < b_max st)%nat -> np (fun _ => True) (pos_end st l).
-Proof. intros Hi Hl. unfold pos_end. eapply np_bind; [apply np_line_rec; assumption|]. intros; exact I. Qed.
+Lemma txs_nth st l r : nth_error (b_lines st) l = Some r -> nth_error (txs st) l = Some (l_text r).
+Proof. intros H. unfold txs. apply (map_nth_error l_text l (b_lines st) H). Qed.
 
-Lemma np_get_map st a b : binv st -> (a <= b)%nat -> (b < b_max st)%nat -> np (fun _ => True) (get_map st a b).
+Definition pe_ok (st : bstate) (l : nat) (first : bool) (p : spos) : Prop :=
+  exists r, nth_error (b_lines st) l = Some r /\ rec_wf r /\ p = SRel l (if first then l_first r else l_end r).
+
+Lemma np_pos_first st l : binv st -> (l < b_max st)%nat -> np (pe_ok st l true) (pos_first st l).
+Proof. intros Hi Hl. unfold pos_first. eapply np_bind; [apply np_line_rec; assumption|]. intros r _ [A B]. exists r. auto. Qed.
+Lemma np_pos_end st l : binv st -> (l < b_max st)%nat -> np (pe_ok st l false) (pos_end st l).
+Proof. intros Hi Hl. unfold pos_end. eapply np_bind; [apply np_line_rec; assumption|]. intros r _ [A B]. exists r. auto. Qed.
+
+Lemma pe_ok_pos st l f p : pe_ok st l f p -> exists o, p = SRel l o /\ pos_ok (txs st) l o.
 Proof.
-  intros Hi Hab Hb. unfold get_map. replace (a <=? b)%nat with true by (symmetry; apply PeanoNat.Nat.leb_le; exact Hab).
-  eapply np_bind; [apply np_pos_first; [assumption|lia]|]. intros ? _ _.
-  eapply np_bind; [apply np_pos_end; assumption|]. intros; exact I.
+  intros (r & Hr & Hw & ->). eexists. split; [reflexivity|]. exists (l_text r). split; [apply txs_nth; exact Hr|].
+  unfold rec_wf, l_end in *. destruct f; lia.
 Qed.
 
+(* the range get_map returns: both ends are positions of the texts, in order *)
+Definition gm_ok (st : bstate) (a b : nat) (mp : smap) : Prop :=
+  exists oa ob, mp = Some (SRel a oa, SRel b ob) /\ pos_ok (txs st) a oa /\ pos_ok (txs st) b ob /\ (a = b -> oa <= ob).
+
+Lemma np_get_map st a b : binv st -> (a <= b)%nat -> (b < b_max st)%nat -> np (gm_ok st a b) (get_map st a b).
+Proof.
+  intros Hi Hab Hb. unfold get_map. replace (a <=? b)%nat with true by (symmetry; apply PeanoNat.Nat.leb_le; exact Hab).
+  eapply np_bind; [apply np_pos_first; [assumption|lia]|]. intros p1 _ (r1 & Hr1 & Hw1 & ->).
+  eapply np_bind; [apply np_pos_end; assumption|]. intros p2 _ (r2 & Hr2 & Hw2 & ->).
+  cbn. exists (l_first r1), (l_end r2). split; [reflexivity|]. unfold rec_wf, l_end in *.
+  split; [exists (l_text r1); split; [apply txs_nth; exact Hr1|lia]|].
+  split; [exists (l_text r2); split; [apply txs_nth; exact Hr2|lia]|].
+  intros ->. rewrite Hr1 in Hr2. injection Hr2 as <-. exact Hw1.
+Qed.
+
+Lemma calc_rw_bound rs : forall indent start, len rs <= start -> snd (calc_rw_loop rs indent start) <= start.
+Proof.
+  induction rs as [|b t IH]; intros indent start H; cbn [calc_rw_loop].
+  - destruct (0 <? indent)%Z; cbn [snd]; lia.
+  - assert (Ht : len t <= start) by (unfold len in *; cbn [length] in H; lia).
+    destruct (indent <=? 0)%Z; [cbn [snd]; lia|]. destruct (is_cont b); [apply IH; exact Ht|].
+    destruct (b =? 9).
+    + destruct (indent <? _)%Z; [cbn [snd]; lia|]. specialize (IH (indent - (4 - Z.of_N (rfind_count_rev t 9 0 mod 4)))%Z (len t) ltac:(lia)). lia.
+    + specialize (IH (indent - 1)%Z (len t) ltac:(lia)). lia.
+Qed.
+
+Lemma len_take_le k (t : str) : len (takeN k t) <= k.
+Proof.
+  unfold takeN, len. assert (H : forall n (l : str), (length (take n l) <= n)%nat).
+  { induction n as [|n IH]; intros l; destruct l as [|x l]; cbn [take length]; try lia. specialize (IH l). lia. }
+  specialize (H (N.to_nat k) t). lia.
+Qed.
+
+Definition first_entry_ok (st : bstate) (line : nat) (ext : list (N * spos)) : Prop :=
+  exists k o rest, ext = (k, SRel line o) :: rest /\ pos_ok (txs st) line o.
+
 Lemma np_get_lines_loop st n : forall line e ind k acc mp, binv st -> (e <= b_max st)%nat ->
-  np (fun x => exists ext, snd x = mp ++ ext /\ ((line < e)%nat -> (0 < n)%nat -> ext <> []))
+  np (fun x => exists ext, snd x = mp ++ ext /\ ((line < e)%nat -> (0 < n)%nat -> first_entry_ok st line ext))
      (get_lines_loop st n line e ind k acc mp).
 Proof.
   induction n as [|n IH]; intros line e ind k acc mp Hi He; cbn [get_lines_loop].
@@ -82,16 +123,23 @@ Proof.
   destruct (negb (line <? e)%nat) eqn:E.
   { cbn. exists []. rewrite app_nil_r. split; [reflexivity|]. intros H. apply PeanoNat.Nat.ltb_lt in H. rewrite H in E. discriminate. }
   assert (Hl : (line < e)%nat) by (apply PeanoNat.Nat.ltb_lt; destruct (line <? e)%nat; [reflexivity|discriminate]).
-  eapply np_bind; [apply np_line_rec; [assumption|lia]|]. intros r _ [_ Hw]. unfold rec_wf, l_end in *.
+  eapply np_bind; [apply np_line_rec; [assumption|lia]|]. intros r _ [Hr Hw]. unfold rec_wf, l_end in *.
   replace (l_first r <=? len (l_text r)) with true by lia. cbn [negb].
-  destruct (calc_right_whitespace _ _) as [sp first].
+  destruct (calc_right_whitespace (takeN (l_first r) (l_text r)) (l_indent r - Z.of_N ind)) as [sp first] eqn:Ec.
+  assert (Hfirst : first <= l_first r).
+  { unfold calc_right_whitespace in Ec. pose proof (calc_rw_bound (rev (takeN (l_first r) (l_text r))) (l_indent r - Z.of_N ind) (len (takeN (l_first r) (l_text r)))) as Hb.
+    rewrite Ec in Hb. cbn [snd] in Hb. pose proof (len_take_le (l_first r) (l_text r)). unfold len in Hb at 1. rewrite rev_length in Hb. fold (len (takeN (l_first r) (l_text r))) in Hb. lia. }
   eapply np_weaken; [|apply IH; assumption]. cbn beta. intros x (ext & Hx & _).
-  eexists. split; [rewrite Hx, <- !app_assoc; reflexivity|]. intros _ _ Hc.
-  apply (f_equal (@length _)) in Hc. rewrite !app_length in Hc. cbn [length] in Hc. lia.
+  eexists. split; [rewrite Hx, <- !app_assoc; reflexivity|]. intros _ _.
+  assert (Hp : forall o, o <= first -> pos_ok (txs st) line o).
+  { intros o Ho. exists (l_text r). split; [apply txs_nth; exact Hr|lia]. }
+  unfold first_entry_ok. destruct (N.to_nat sp) as [|q]; cbn [seq map app].
+  - do 3 eexists. split; [reflexivity|]. apply Hp. lia.
+  - do 3 eexists. split; [reflexivity|]. apply Hp. lia.
 Qed.
 
 Lemma np_get_lines st b e ind k : binv st -> (b <= e)%nat -> (e <= b_max st)%nat ->
-  np (fun x => (b < e)%nat -> snd x <> []) (get_lines st b e ind k).
+  np (fun x => (b < e)%nat -> first_entry_ok st b (snd x)) (get_lines st b e ind k).
 Proof.
   intros Hi Hbe He. unfold get_lines. replace (b <=? e)%nat with true by (symmetry; apply PeanoNat.Nat.leb_le; exact Hbe).
   eapply np_weaken; [|apply np_get_lines_loop; assumption]. cbn beta. intros x (ext & Hx & Hn) Hlt.
@@ -109,8 +157,8 @@ Ltac np_step :=
   | |- np _ (bind (line_indent _ _) _) => eapply np_bind; [apply np_line_indent; side | intros ? ? _]
   | |- np _ (bind (get_line _ _) _) => eapply np_bind; [apply np_get_line; side | intros ? ? _]
   | |- np _ (bind (line_rec _ _) _) => eapply np_bind; [apply np_line_rec; side | intros ? ? [? ?]]
-  | |- np _ (bind (pos_end _ _) _) => eapply np_bind; [apply np_pos_end; side | intros ? ? _]
-  | |- np _ (bind (get_map _ _ _) _) => eapply np_bind; [apply np_get_map; side | intros ? ? _]
+  | |- np _ (bind (pos_end _ _) _) => eapply np_bind; [apply np_pos_end; side | intros ? ? ?]
+  | |- np _ (bind (get_map _ _ _) _) => eapply np_bind; [apply np_get_map; side | intros ? ? ?]
   | |- np _ (if ?c then _ else _) => destruct c eqn:?
   | |- np _ (match ?x with _ => _ end) => destruct x eqn:?
   end.
@@ -190,9 +238,19 @@ Qed.
 (* ------------------------------------------------------------------ *)
 (* the rules                                                             *)
 
+(* an accepting rule has appended one block whose lines are exactly those it consumed *)
+Definition pushed (st : bstate) (x : bstate) : Prop :=
+  exists c, b_node x = push_child (b_node st) c /\ blk_ok (txs st) (b_line st) (b_line x) c.
 Definition rok (st : bstate) (x : bstate * bool) : Prop :=
   b_lines (fst x) = b_lines st /\ b_max (fst x) = b_max st /\
-  (if snd x then (b_line st < b_line (fst x) <= b_max st)%nat else fst x = st).
+  (if snd x then (b_line st < b_line (fst x) <= b_max st)%nat /\ pushed st (fst x) else fst x = st).
+
+Ltac rng_leaf :=
+  repeat match goal with H : gm_ok _ _ _ _ |- _ => destruct H as (?oa & ?ob & -> & ?P1 & ?P2 & ?P3) end;
+  unfold mk; rewrite blk_ok_unfold; cbn [txs b_lines set_line] in *;
+  repeat split; try assumption; try lia; cbn [kids_ok]; rewrite ?blk_ok_unfold; auto.
+Ltac accept := apply np_ret; unfold rok, pushed; cbn [fst snd b_lines b_max b_line b_node set_line push_node set_node set_refs];
+  split; [reflexivity|]; split; [reflexivity|]; split; [lia|]; eexists; split; [reflexivity|]; rng_leaf.
 
 Lemma rok_decline st : rok st (st, false).
 Proof. repeat split. Qed.
@@ -219,7 +277,6 @@ Variable st : bstate.
 Hypothesis Hi : binv st.
 Hypothesis Hl : (b_line st < b_max st)%nat.
 
-Ltac accept := cbn; unfold rok; cbn [fst snd b_lines b_max b_line set_line push_node set_node set_refs]; repeat split; lia.
 
 Lemma np_rule_hr : np (rok st) (rule_hr st).
 Proof.
@@ -254,14 +311,13 @@ Variable st : bstate.
 Hypothesis Hi : binv st.
 Hypothesis Hl : (b_line st < b_max st)%nat.
 
-Ltac accept := cbn; unfold rok; cbn [fst snd b_lines b_max b_line set_line push_node set_node set_refs]; repeat split; lia.
 
 Lemma np_rule_paragraph : np (rok st) (rule_paragraph cfg st).
 Proof.
   unfold rule_paragraph. cbv zeta.
   eapply np_bind; [apply np_para_scan; [exact Hi|lia]|]. intros next _ Hn. cbn beta in Hn.
   eapply np_bind; [apply np_get_lines; [exact Hi|lia|lia]|]. intros cm _ _.
-  eapply np_bind; [apply np_get_map; [exact Hi|lia|cbn [b_max set_line]; lia]|]. intros mp _ _. accept.
+  eapply np_bind; [apply np_get_map; [exact Hi|lia|cbn [b_max set_line]; lia]|]. intros mp _ Hmp. accept.
 Qed.
 
 Lemma np_rule_lheading : np (rok st) (rule_lheading cfg st).
@@ -271,7 +327,7 @@ Proof.
   eapply np_bind; [apply np_lheading_scan; [exact Hi|lia]|]. intros [next level] _ [Hn Hlv]. cbn [fst snd] in Hn, Hlv.
   destruct (level =? 0) eqn:E0; [apply rok_decline|]. assert (Hlt : (next < b_max st)%nat) by (apply Hlv; lia).
   eapply np_bind; [apply np_get_lines; [exact Hi|lia|lia]|]. intros cm _ _.
-  eapply np_bind; [apply np_get_map; [exact Hi|lia|cbn [b_max set_line]; lia]|]. intros mp _ _. accept.
+  eapply np_bind; [apply np_get_map; [exact Hi|lia|cbn [b_max set_line]; lia]|]. intros mp _ Hmp. accept.
 Qed.
 
 Lemma np_rule_code : np (rok st) (rule_code st).
@@ -299,8 +355,14 @@ Proof.
   eapply np_bind; [apply Hscan; lia|]. intros last _ Hlast. cbn beta in Hlast.
   assert (Hb : (S (b_line st) <= last <= b_max st)%nat) by (destruct Hlast as [->|H]; lia).
   eapply np_bind; [apply np_get_lines; [exact Hi|lia|lia]|]. intros cm _ Hcm. cbn beta in Hcm.
-  destruct (snd cm) as [|[k0 p0] rest] eqn:Es; [exfalso; apply Hcm; [lia|reflexivity]|].
-  eapply np_bind; [apply np_pos_end; [exact Hi|lia]|]. intros pe _ _. accept.
+  destruct (Hcm ltac:(lia)) as (k0 & o0 & rest & Es & Ho0). rewrite Es.
+  eapply np_bind; [apply np_pos_end; [exact Hi|lia]|]. intros pe _ (re & Hre & Hwe & ->).
+  apply np_ret. unfold rok, pushed. cbn [fst snd b_lines b_max b_line b_node set_line push_node set_node].
+  split; [reflexivity|]. split; [reflexivity|]. split; [lia|]. eexists. split; [reflexivity|].
+  unfold mk. rewrite blk_ok_unfold. unfold l_end, rec_wf in *.
+  repeat split; try lia; try exact Ho0; try exact I.
+  - exists (l_text re). split; [apply txs_nth; exact Hre|lia].
+  - intros E. destruct Ho0 as (t & Ht & Hot). rewrite E in Ht. rewrite (txs_nth _ _ _ Hre) in Ht. injection Ht as <-. exact Hot.
 Qed.
 End Rules2.
 
@@ -310,7 +372,6 @@ Variable st : bstate.
 Hypothesis Hi : binv st.
 Hypothesis Hl : (b_line st < b_max st)%nat.
 
-Ltac accept := cbn; unfold rok; cbn [fst snd b_lines b_max b_line set_line push_node set_node set_refs]; repeat split; lia.
 
 Lemma np_rule_fence : np (rok st) (rule_fence cfg st).
 Proof.
@@ -331,8 +392,8 @@ Proof.
   eapply np_bind; [apply np_line_rec; assumption|]. intros r0 _ _.
   eapply np_bind; [apply np_get_lines; [exact Hi|lia|lia]|]. intros cm _ _.
   destruct he.
-  - specialize (Hhe eq_refl). eapply np_bind; [apply np_get_map; [exact Hi|lia|lia]|]. intros mp _ _. accept.
-  - eapply np_bind; [apply np_get_map; [exact Hi|lia|lia]|]. intros mp _ _. accept.
+  - specialize (Hhe eq_refl). eapply np_bind; [apply np_get_map; [exact Hi|lia|lia]|]. intros mp _ Hmp. accept.
+  - eapply np_bind; [apply np_get_map; [exact Hi|lia|lia]|]. intros mp _ Hmp. accept.
 Qed.
 
 Lemma np_rule_html_block : np (rok st) (rule_html_block st).
@@ -356,7 +417,7 @@ Proof.
   match goal with |- np _ (bind ?a _) => change a with (if html_seq_close seq_i line_text then ret (S (b_line st)) else roll (S (b_max st)) (S (b_line st))) end.
   eapply np_bind; [exact Hnext|]. intros next _ Hn. cbn beta in Hn.
   eapply np_bind; [apply np_get_lines; [exact Hi|lia|cbn [b_max set_line]; lia]|]. intros cm _ _.
-  eapply np_bind; [apply np_get_map; [exact Hi|lia|cbn [b_max set_line]; lia]|]. intros mp _ _. accept.
+  eapply np_bind; [apply np_get_map; [exact Hi|lia|cbn [b_max set_line]; lia]|]. intros mp _ Hmp. accept.
 Qed.
 End Rules3.
 
@@ -380,6 +441,13 @@ Proof.
       { apply nth_error_None. rewrite set_nth_length. apply nth_error_None. exact E. }
       congruence.
   - rewrite set_nth_other in H by exact Hne. eapply Hw; exact H.
+Qed.
+
+Lemma set_nth_text ls : forall n r f i, nth_error ls n = Some r -> map l_text (set_nth ls n (LRec (l_text r) f i)) = map l_text ls.
+Proof.
+  induction ls as [|a t IH]; intros [|n] r f i H; cbn in *; try discriminate.
+  - injection H as <-. reflexivity.
+  - f_equal. apply IH. exact H.
 Qed.
 
 Lemma find_indent_loop_bound line : forall rest pos ind i p, find_indent_loop line rest pos ind = (i, p) -> pos <= p <= pos + len rest.
@@ -416,7 +484,7 @@ Hypothesis HL : (b_max st0 <= L)%nat.
 
 Definition qpost (lines : list lrec) (next : nat) (x : list lrec * nat) : Prop :=
   length (fst x) = L /\ lines_wf (fst x) /\ (next <= snd x <= b_max st0)%nat /\
-  (forall l, (l < next)%nat -> nth_error (fst x) l = nth_error lines l).
+  (forall l, (l < next)%nat -> nth_error (fst x) l = nth_error lines l) /\ map l_text (fst x) = map l_text lines.
 
 Lemma np_quote_scan n : forall lines next le, length lines = L -> lines_wf lines -> (next <= b_max st0)%nat ->
   np (qpost lines next) (quote_scan cfg st0 n lines next le).
@@ -432,10 +500,11 @@ Proof.
   eapply np_bind; [apply np_line_indent; assumption|]. intros ind _ _.
   eapply np_bind; [apply np_get_line; assumption|]. intros line Hline _.
   eapply np_bind; [apply np_line_rec; assumption|]. intros r Hr [Hnth Hrw]. cbn [b_lines set_lines] in Hnth.
-  assert (Hrec : forall x le', rec_wf x -> np (qpost lines next) (quote_scan cfg st0 n (set_nth lines next x) (S next) le')).
-  { intros x le' Hx. eapply np_weaken; [|apply IH; [rewrite set_nth_length; exact Hlen|apply set_nth_wf; assumption|lia]].
-    intros y (A & B & C & D). unfold qpost. repeat split; auto; try lia.
-    intros l Hl. rewrite D by lia. apply set_nth_other. lia. }
+  assert (Hrec : forall f i le', f <= len (l_text r) -> np (qpost lines next) (quote_scan cfg st0 n (set_nth lines next (LRec (l_text r) f i)) (S next) le')).
+  { intros f i le' Hx. eapply np_weaken; [|apply IH; [rewrite set_nth_length; exact Hlen|apply set_nth_wf; [assumption|exact Hx]|lia]].
+    intros y (A & B & C & D & E'). unfold qpost. repeat split; auto; try lia.
+    - intros l Hl. rewrite D by lia. apply set_nth_other. lia.
+    - rewrite E'. apply set_nth_text. exact Hnth. }
   destruct line as [|c rest].
   { cbn. unfold qpost. cbn [fst snd]. repeat split; auto; lia. }
   (* first < len text *)
@@ -444,14 +513,15 @@ Proof.
     destruct (l_first r <=? l_end r); [|discriminate]. injection Hline as Hline. apply drop_cons_lt in Hline. lia. }
   destruct ((c =? 62) && negb (ind <? 0)%Z).
   - destruct (find_indent_of (l_text r) (l_first r + 1)) as [ia fn] eqn:Ef.
-    apply find_indent_of_bound in Ef; [|lia]. apply Hrec. unfold rec_wf. cbn [l_first l_text]. lia.
+    apply find_indent_of_bound in Ef; [|lia]. apply Hrec. lia.
   - destruct le.
     { cbn. unfold qpost. cbn [fst snd]. repeat split; auto; lia. }
     eapply np_bind; [apply np_test_rules_at; assumption|]. intros term _ _. destruct term.
     + cbn. unfold qpost. cbn [fst snd]. destruct (b_blk st0 =? 0).
       * repeat split; auto; lia.
-      * repeat split; [rewrite set_nth_length; exact Hlen|apply set_nth_wf; [exact Hw|exact Hrw]|lia|lia|].
-        intros l Hl. apply set_nth_other. lia.
+      * repeat split; [rewrite set_nth_length; exact Hlen|apply set_nth_wf; [exact Hw|exact Hrw]|lia|lia| |].
+        -- intros l Hl. apply set_nth_other. lia.
+        -- apply set_nth_text. exact Hnth.
     + apply Hrec. exact Hrw.
 Qed.
 End Quote.
@@ -496,13 +566,45 @@ Proof.
   rewrite H by lia. lia.
 Qed.
 
+(* tight lists: paragraphs are replaced by their (range-less) inline content; the remaining blocks keep their order *)
+Lemma mark_tight_ok tx cs : forall lo hi, (lo <= hi)%nat -> kids_ok tx lo hi cs -> kids_ok tx lo hi (mark_tight cs).
+Proof.
+  induction cs as [|c t IH]; intros lo hi Hl H; [exact I|].
+  cbn [kids_ok] in H. destruct H as [Hc Ht]. pose proof (blk_ok_next_lo _ _ _ _ Hc Hl) as Hn.
+  specialize (IH (next_lo lo c) hi ltac:(lia) Ht).
+  change (mark_tight (c :: t)) with ((match n_kind c with KParagraph => n_children c | _ => [c] end) ++ mark_tight t).
+  assert (Hkeep : kids_ok tx lo hi ([c] ++ mark_tight t)) by (cbn [app kids_ok]; split; assumption).
+  destruct c as [k m a e ccs]. cbn [n_kind n_children]. destruct k; try exact Hkeep.
+  rewrite blk_ok_unfold in Hc. unfold next_lo in IH, Hn. cbn [n_map] in IH, Hn.
+  destruct m as [[[o1|la oa] [o2|lb ob]]|]; try contradiction.
+  - destruct Hc as (A & B & C & _ & _ & _ & K). apply kids_ok_app.
+    assert (K' : kids_ok tx lo (S lb) ccs) by (eapply kids_ok_weaken; [exact A|apply le_n|exact K]).
+    split; [eapply kids_ok_weaken; [apply le_n| |exact K']; lia|].
+    pose proof (kids_end_bound _ _ _ _ K' ltac:(lia)). eapply kids_ok_weaken; [|apply le_n|exact IH]. lia.
+  - subst ccs. exact IH.
+Qed.
+
+Lemma items_tight_ok tx items : forall lo hi, kids_ok tx lo hi items ->
+  kids_ok tx lo hi (map (fun it => set_children it (mark_tight (n_children it))) items).
+Proof.
+  induction items as [|it t IH]; intros lo hi H; [exact I|]. cbn [map kids_ok] in *. destruct H as [Hc Ht].
+  destruct it as [k m a e cs]. cbn [set_children n_children]. split.
+  - rewrite blk_ok_unfold in *. destruct m as [[[o1|la oa] [o2|lb ob]]|]; try contradiction.
+    + destruct Hc as (A & B & C & D & E & F & K). repeat split; try assumption. apply mark_tight_ok; [lia|exact K].
+    + subst cs. reflexivity.
+  - apply IH. exact Ht.
+Qed.
+
 Section Engine.
 Variable cfg : bcfg.
 Variable T : bstate -> res bstate.
 (* what BlockProofs shows of the nested tokenizer: limits, level, progress *)
 Hypothesis T_post : forall st st', T st = inr st' -> tpost st st'.
 (* what this file shows of it: no panic, same line table, the line stays inside the block *)
-Definition tsafe (st st' : bstate) : Prop := b_lines st' = b_lines st /\ (b_line st' <= b_max st)%nat.
+Definition tsafe (st st' : bstate) : Prop :=
+  b_lines st' = b_lines st /\ (b_line st' <= b_max st)%nat /\
+  (forall lo, (lo <= b_line st)%nat -> kids_ok (txs st) lo (b_line st) (n_children (b_node st)) ->
+              kids_ok (txs st) lo (b_line st') (n_children (b_node st'))).
 Hypothesis T_safe : forall st, binv st -> (b_line st <= b_max st)%nat -> np (tsafe st) (T st).
 
 Lemma np_T st : binv st -> (b_line st <= b_max st)%nat -> np (fun st' => tsafe st st' /\ tpost st st') (T st).
@@ -511,7 +613,6 @@ Proof.
   destruct (T st) as [[k| |]|st']; cbn in *; auto.
 Qed.
 
-Ltac accept := cbn; unfold rok; cbn [fst snd b_lines b_max b_line set_line push_node set_node set_refs]; repeat split; lia.
 
 Section OneRule.
 Variable st : bstate.
@@ -543,23 +644,32 @@ Proof.
   assert (Hw1 : lines_wf (set_nth (b_lines st) (b_line st) rec1)).
   { apply set_nth_wf; [exact Hw|]. unfold rec_wf, rec1. cbn [l_first l_text]. lia. }
   eapply np_bind; [apply (np_quote_scan cfg st (length (b_lines st)) Hm); [apply set_nth_length|exact Hw1|lia]|].
-  intros [lines' next] _ (Hlen & Hw' & Hnx & Hframe). cbn [fst snd] in Hlen, Hw', Hnx, Hframe.
+  intros [lines' next] _ (Hlen & Hw' & Hnx & Hframe & Htx). cbn [fst snd] in Hlen, Hw', Hnx, Hframe, Htx.
+  assert (Htx' : map l_text lines' = txs st) by (rewrite Htx; unfold rec1; apply set_nth_text; exact Hr).
   set (inner := BState lines' (mk KBlockquote None []) 0 (b_line st) next (b_tight st) (b_list_indent st) (b_level st + 1) (b_refs st)).
   assert (Hinner : binv inner) by (split; cbn [b_max b_lines inner]; [lia|exact Hw']).
   eapply np_bind; [apply np_T; [exact Hinner|cbn [b_line b_max inner]; lia]|].
-  intros inner' _ [[Hlines Hline'] (Hmax' & _ & Hmono & Hprog)]. cbn [b_lines b_line b_max inner] in *.
+  intros inner' _ [(Hlines & Hline' & Hkids) (Hmax' & _ & Hmono & Hprog)]. cbn [b_lines b_line b_max inner] in *.
   assert (Hadv : (b_line st < b_line inner')%nat).
   { apply Hprog; [lia|]. right. cbn [b_lines b_line b_blk inner]. exists rec1. split.
     - rewrite (Hframe (b_line st)) by lia. apply (set_nth_same _ _ _ _ Hr).
     - unfold rec1. cbn [l_indent]. lia. }
-  eapply np_bind; [apply np_get_map; [split; cbn [b_max b_lines]; assumption|lia|cbn [b_max]; lia]|]. intros mp _ _.
-  cbn. unfold rok. cbn [fst snd b_lines b_max b_line push_node set_node]. repeat split; lia.
+  specialize (Hkids (b_line st) (le_n _) I). unfold txs in Hkids. cbn [b_lines inner] in Hkids. rewrite Htx' in Hkids.
+  eapply np_bind; [apply np_get_map; [split; cbn [b_max b_lines]; assumption|lia|cbn [b_max]; lia]|]. intros mp _ (oa & ob & -> & P1 & P2 & P3).
+  apply np_ret. unfold rok, pushed. cbn [fst snd b_lines b_max b_line b_node push_node set_node].
+  split; [reflexivity|]. split; [reflexivity|]. split; [lia|]. eexists. split; [reflexivity|].
+  destruct (b_node inner') as [k0 m0 a0 e0 cs0]. cbn [set_map n_children] in *. rewrite blk_ok_unfold.
+  unfold txs in P1, P2. cbn [b_lines] in P1, P2.
+  repeat split; try assumption; try lia.
+  replace (S (b_line inner' - 1)) with (b_line inner') by lia. exact Hkids.
 Qed.
 End OneRule.
 
 Definition lok (st : bstate) (next : nat) (x : bstate * nat * bool) : Prop :=
   b_lines (fst (fst x)) = b_lines st /\ b_max (fst (fst x)) = b_max st /\
-  b_line (fst (fst x)) = snd (fst x) /\ (next < snd (fst x) <= b_max st)%nat.
+  b_line (fst (fst x)) = snd (fst x) /\ (next < snd (fst x) <= b_max st)%nat /\
+  (forall lo, (lo <= next)%nat -> kids_ok (txs st) lo next (n_children (b_node st)) ->
+              kids_ok (txs st) lo (snd (fst x)) (n_children (b_node (fst (fst x))))).
 
 Lemma np_list_items n : forall st ordered mc p next pe tight,
   binv st -> b_line st = next -> (next < b_max st)%nat ->
@@ -579,30 +689,43 @@ Proof.
   assert (Hw1 : lines_wf lines1) by (apply set_nth_wf; [exact Hw|unfold rec_wf, rec1; cbn [l_first l_text]; lia]).
   assert (Hi1 : binv st1) by (split; cbn [b_max b_lines st1]; [unfold lines1; rewrite set_nth_length; exact Hm|exact Hw1]).
   (* the item body *)
-  eapply (np_bind (fun st2 : bstate => b_max st2 = b_max st /\ (next < b_line st2 <= b_max st)%nat)).
+  assert (Htx1 : map l_text lines1 = txs st) by (unfold lines1, rec1; apply set_nth_text; exact Hr).
+  eapply (np_bind (fun st2 : bstate => b_max st2 = b_max st /\ (next < b_line st2 <= b_max st)%nat /\
+                                       kids_ok (txs st) next (b_line st2) (n_children (b_node st2)))).
   { destruct ((fn =? l_end r) && is_empty st1 (S next)) eqn:Hfast.
-    - apply np_ret. cbn [b_max b_line set_line st1]. rewrite Hline. destruct (next + 2 <? b_max st)%nat eqn:E; [apply PeanoNat.Nat.ltb_lt in E|apply PeanoNat.Nat.ltb_ge in E]; lia.
+    - apply np_ret. cbn [b_max b_line b_node set_line st1 mk n_children kids_ok]. rewrite Hline. destruct (next + 2 <? b_max st)%nat eqn:E; [apply PeanoNat.Nat.ltb_lt in E|apply PeanoNat.Nat.ltb_ge in E]; repeat split; lia.
     - set (inner := set_level (set_line st1 next) (b_level st + 1)).
       eapply np_bind; [apply (np_T inner); [exact Hi1|cbn [b_line b_max inner set_level set_line st1]; lia]|].
-      intros x _ [[Hxl Hxline] (Hxm & _ & _ & Hprog)]. cbn [b_max b_line inner set_level set_line st1] in *.
-      cbn. cbn [b_max b_line set_level]. split; [exact Hxm|]. split; [|lia].
+      intros x _ [(Hxl & Hxline & Hxk) (Hxm & _ & _ & Hprog)]. cbn [b_max b_line inner set_level set_line st1] in *.
+      specialize (Hxk next (le_n _) I). unfold txs in Hxk. cbn [b_lines inner set_level set_line st1] in Hxk. rewrite Htx1 in Hxk.
+      apply np_ret. cbn [b_max b_line b_node set_level]. split; [exact Hxm|].
+      assert (Hadv : (next < b_line x)%nat); [|split; [lia|exact Hxk]].
       apply Hprog; [exact Hlt|].
       destruct (fn =? l_end r) eqn:Ee.
       + left. unfold is_empty. cbn [b_lines b_line inner set_level set_line st1]. unfold lines1. rewrite (set_nth_same _ _ _ _ Hr).
         unfold l_end, rec1 in *. cbn [l_text l_first]. lia.
       + right. cbn [b_lines b_line b_blk inner set_level set_line st1]. unfold lines1. rewrite (set_nth_same _ _ _ _ Hr).
         eexists. split; [reflexivity|]. unfold rec1, ia'. cbn [l_indent]. rewrite ?Ee. destruct (4 <? ia) eqn:E4; lia. }
-  intros st2 _ (Hm2 & Hl2).
+  intros st2 _ (Hm2 & Hl2 & Hk2).
   replace (b_line st2 <? next)%nat with false by (symmetry; apply PeanoNat.Nat.ltb_ge; lia).
   replace (b_line st2 =? 0)%nat with false by (symmetry; apply PeanoNat.Nat.eqb_neq; lia).
   set (st3 := BState (b_lines st) (b_node st) (b_blk st) (b_line st2) (b_max st) (b_tight st) (b_list_indent st) (b_level st) (b_refs st2)).
   assert (Hi3 : binv st3) by (split; cbn [b_max b_lines st3]; assumption).
-  eapply np_bind; [apply np_get_map; [exact Hi3|lia|cbn [b_max st3]; lia]|]. intros mp _ _.
-  set (st4 := push_node st3 (set_map (b_node st2) mp)).
+  eapply np_bind; [apply np_get_map; [exact Hi3|lia|cbn [b_max st3]; lia]|]. intros mp _ (oa & ob & -> & P1 & P2 & P3).
+  unfold txs in P1, P2. cbn [b_lines st3] in P1, P2. fold (txs st) in P1, P2.
+  set (item := set_map (b_node st2) (Some (SRel next oa, SRel (b_line st2 - 1) ob))).
+  assert (Hitem : blk_ok (txs st) next (b_line st2) item).
+  { unfold item. destruct (b_node st2) as [k0 m0 a0 e0 cs0]. cbn [set_map n_children] in *. rewrite blk_ok_unfold.
+    repeat split; try assumption; try lia. replace (S (b_line st2 - 1)) with (b_line st2) by lia. exact Hk2. }
+  set (st4 := push_node st3 item).
   assert (Hi4 : binv st4) by exact Hi3.
-  assert (Hdone : forall (s' : bstate) t', b_lines s' = b_lines st -> b_max s' = b_max st -> b_line s' = b_line st2 ->
+  assert (Hk4 : forall lo, (lo <= next)%nat -> kids_ok (txs st) lo next (n_children (b_node st)) ->
+                kids_ok (txs st) lo (b_line st2) (n_children (b_node st4))).
+  { intros lo Hlo Hk. unfold st4, push_node, st3. cbn [b_node set_node]. unfold push_child. destruct (b_node st) as [k0 m0 a0 e0 cs0].
+    cbn [set_children n_children] in *. apply (kids_ok_push _ lo next); [exact Hlo|lia|exact Hk|exact Hitem]. }
+  assert (Hdone : forall (s' : bstate) t', b_lines s' = b_lines st -> b_max s' = b_max st -> b_line s' = b_line st2 -> b_node s' = b_node st4 ->
             np (lok st next) (ret (s', b_line st2, t'))).
-  { intros s' t' A B C. cbn. unfold lok. cbn [fst snd]. repeat split; try assumption; lia. }
+  { intros s' t' A B C D. apply np_ret. unfold lok. cbn [fst snd]. rewrite D. repeat split; try assumption; lia. }
   cbn [b_max st4 push_node set_node st3].
   destruct (b_max st <=? b_line st2)%nat eqn:Emax; [apply Hdone; reflexivity|]. apply PeanoNat.Nat.leb_gt in Emax.
   eapply np_bind; [apply np_line_indent; [exact Hi4|cbn [b_max st4 push_node set_node st3]; exact Emax]|]. intros ind _ _.
@@ -618,8 +741,9 @@ Proof.
   destruct (negb (c0 =? mc)); [apply Hdone; reflexivity|].
   destruct (nth_in_range (b_lines st) (b_line st2)) as [r' Hr']; [lia|].
   eapply np_weaken; [|apply IH; [exact Hi4|reflexivity|cbn [b_max st5 st4 set_line push_node set_node st3]; exact Emax|]].
-  - intros [[s' nx] t'] (A & B & C & D). cbn [fst snd] in *. unfold lok. cbn [fst snd].
-    cbn [b_lines b_max st5 st4 set_line push_node set_node st3] in A, B, D. repeat split; try assumption; lia.
+  - intros [[s' nx] t'] (A & B & C & D & K). cbn [fst snd] in *. unfold lok. cbn [fst snd].
+    cbn [b_lines b_max st5 st4 set_line push_node set_node st3] in A, B, D. repeat split; try assumption; try lia.
+    intros lo Hlo Hk. apply K; [lia|]. apply Hk4; assumption.
   - cbn [b_lines st5 st4 set_line push_node set_node st3]. exists r'. split; [exact Hr'|].
     pose proof (get_line_len st5 (b_line st2) cur r' Hcur Hr'). lia.
 Qed.
@@ -641,12 +765,18 @@ Proof.
   eapply np_bind.
   { apply np_list_items; [exact Hi|reflexivity|cbn [b_max set_node]; exact Hl|].
     cbn [b_lines set_node]. exists r. split; [exact Hr|]. pose proof (get_line_len st (b_line st) cur r Hcur Hr). lia. }
-  intros [[st' next] tight] _ (A & B & C & D). cbn [fst snd b_lines b_max set_node] in A, B, C, D.
+  intros [[st' next] tight] _ (A & B & C & D & K). cbn [fst snd b_lines b_max b_node set_node n_children] in A, B, C, D, K.
   replace (next =? 0)%nat with false by (symmetry; apply PeanoNat.Nat.eqb_neq; lia).
-  eapply np_bind; [apply np_get_map; [split; [rewrite A, B; apply Hi|rewrite A; apply Hi]|lia|lia]|]. intros mp _ _.
-  cbn. unfold rok. cbn [fst snd b_lines b_max b_line set_node]. repeat split; try assumption; lia.
+  eapply np_bind; [apply np_get_map; [split; [rewrite A, B; apply Hi|rewrite A; apply Hi]|lia|lia]|]. intros mp _ (oa & ob & -> & P1 & P2 & P3).
+  unfold txs in P1, P2. rewrite A in P1, P2. fold (txs st) in P1, P2.
+  assert (Hitems : kids_ok (txs st) (b_line st) next (n_children (b_node st'))).
+  { apply K; [apply le_n|]. unfold txs. cbn [b_lines set_node]. destruct mv; exact I. }
+  apply np_ret. unfold rok, pushed. cbn [fst snd b_lines b_max b_line b_node set_node].
+  split; [exact A|]. split; [exact B|]. split; [lia|]. eexists. split; [reflexivity|].
+  destruct (b_node st') as [k0 m0 a0 e0 cs0]. cbn [n_children] in Hitems.
+  destruct tight; cbn [set_children set_map n_children]; rewrite blk_ok_unfold; repeat split; try assumption; try lia;
+    replace (S (next - 1)) with next by lia; [apply items_tight_ok|]; exact Hitems.
 Qed.
-
 
 Lemma np_rule_real r st : r <> R_REF -> binv st -> (b_line st < b_max st)%nat ->
   (exists r0, nth_error (b_lines st) (b_line st) = Some r0 /\ (0 <= l_indent r0 - Z.of_N (b_blk st))%Z) ->
@@ -681,22 +811,32 @@ Qed.
 
 Hypothesis Hchain : Forall (fun r => r <> R_REF) (bc_chain cfg).
 
+Lemma tsafe_refl st : (b_line st <= b_max st)%nat -> tsafe st st.
+Proof. intros H. split; [reflexivity|]. split; [exact H|]. auto. Qed.
+
+Lemma tsafe_line st l : (b_line st <= l <= b_max st)%nat -> tsafe st (set_line st l).
+Proof.
+  intros H. split; [reflexivity|]. split; [cbn [b_line set_line]; lia|]. intros lo Hlo Hk. cbn [b_line b_node set_line].
+  eapply kids_ok_weaken; [apply le_n| |exact Hk]. lia.
+Qed.
+
 Lemma np_tok_loop n : forall st he, binv st -> (b_line st <= b_max st)%nat -> np (tsafe st) (tok_loop cfg T n st he).
 Proof.
   induction n as [|n IH]; intros st he Hi Hl; cbn [tok_loop].
-  { destruct (negb (b_line st <? b_max st)%nat); [apply np_ret; split; [reflexivity|exact Hl]|exact I]. }
-  destruct (negb (b_line st <? b_max st)%nat) eqn:Hlt; [apply np_ret; split; [reflexivity|exact Hl]|].
+  { destruct (negb (b_line st <? b_max st)%nat); [apply np_ret; apply tsafe_refl; exact Hl|exact I]. }
+  destruct (negb (b_line st <? b_max st)%nat) eqn:Hlt; [apply np_ret; apply tsafe_refl; exact Hl|].
   cbv zeta. unfold skip_empty_lines.
   pose proof (skip_empty_from_le st (S (b_max st - b_line st)) (b_line st) Hl) as Hs.
   set (line := skip_empty_from (S (b_max st - b_line st)) st (b_line st)) in *.
   cbn [b_max set_line].
-  destruct (b_max st <=? line)%nat eqn:Hmax; [apply np_ret; split; [reflexivity|cbn [b_line set_line]; lia]|].
+  destruct (b_max st <=? line)%nat eqn:Hmax; [apply np_ret; apply tsafe_line; lia|].
   apply PeanoNat.Nat.leb_gt in Hmax.
   assert (Hi' : binv (set_line st line)) by exact Hi.
   eapply np_bind; [apply np_line_indent; [exact Hi'|exact Hmax]|]. intros ind Hind _.
-  destruct (ind <? 0)%Z eqn:Hneg; [apply np_ret; split; [reflexivity|cbn [b_line set_line]; lia]|].
+  destruct (ind <? 0)%Z eqn:Hneg; [apply np_ret; apply tsafe_line; lia|].
   cbn [b_level set_line].
-  destruct (bc_maxnest cfg <=? b_level st); [apply np_ret; split; [reflexivity|cbn [b_line set_line]; lia]|].
+  destruct (bc_maxnest cfg <=? b_level st).
+  { apply np_ret. pose proof (tsafe_line st (b_max st) ltac:(lia)) as H. exact H. }
   assert (Hnn : exists r0, nth_error (b_lines (set_line st line)) (b_line (set_line st line)) = Some r0 /\
                            (0 <= l_indent r0 - Z.of_N (b_blk (set_line st line)))%Z).
   { unfold line_indent, line_rec in Hind. cbn [b_lines b_line b_blk set_line] in *.
@@ -704,21 +844,30 @@ Proof.
     exists r0. split; [reflexivity|lia]. }
   eapply np_bind; [apply np_try_rules; [exact Hchain|exact Hi'|exact Hmax|exact Hnn]|].
   intros [st1' ok] _ (A & B & C). cbn [fst snd b_lines b_max b_line set_line] in A, B, C.
-  eapply (np_bind (fun st1 : bstate => b_lines st1 = b_lines st /\ b_max st1 = b_max st /\ (line < b_line st1 <= b_max st)%nat)).
-  { destruct ok; [apply np_ret; auto|]. subst st1'.
-    eapply np_bind; [apply np_get_line; [exact Hi'|exact Hmax]|]. intros content _ _.
-    eapply np_bind; [apply np_line_rec; [exact Hi'|exact Hmax]|]. intros r0 _ _.
-    apply np_ret. cbn [b_lines b_max b_line set_line push_node set_node]. repeat split; lia. }
-  intros st1 _ (A1 & B1 & C1).
-  assert (Hrec : forall s' he', b_lines s' = b_lines st -> b_max s' = b_max st -> (b_line s' <= b_max st)%nat ->
-            np (tsafe st) (tok_loop cfg T n s' he')).
-  { intros s' he' X Y Z. eapply np_weaken; [|apply IH; [split; [rewrite X, Y; apply Hi|rewrite X; apply Hi]|lia]].
-    intros y [P Q]. split; [congruence|lia]. }
+  (* after a rule or the fallback: one more child, made of the lines consumed *)
+  eapply (np_bind (fun st1 : bstate => b_lines st1 = b_lines st /\ b_max st1 = b_max st /\ (line < b_line st1 <= b_max st)%nat /\
+                                       exists c, b_node st1 = push_child (b_node st) c /\ blk_ok (txs st) line (b_line st1) c)).
+  { destruct ok.
+    - destruct C as [C (c & Hc & Hb)]. cbn [b_node b_line set_line txs b_lines] in Hc, Hb. apply np_ret. cbn [fst]. split; [exact A|]. split; [exact B|]. split; [lia|]. exists c. split; [exact Hc|exact Hb].
+    - subst st1'.
+      eapply np_bind; [apply np_get_line; [exact Hi'|exact Hmax]|]. intros content _ _.
+      eapply np_bind; [apply np_line_rec; [exact Hi'|exact Hmax]|]. intros r0 _ _.
+      apply np_ret. cbn [b_lines b_max b_line b_node set_line push_node set_node]. repeat split; try lia.
+      eexists. split; [reflexivity|]. unfold mk. rewrite blk_ok_unfold. reflexivity. }
+  intros st1 _ (A1 & B1 & C1 & c & Hc & Hb).
+  assert (Hrec : forall s' he', b_lines s' = b_lines st -> b_max s' = b_max st -> (b_line st1 <= b_line s' <= b_max st)%nat ->
+            b_node s' = b_node st1 -> np (tsafe st) (tok_loop cfg T n s' he')).
+  { intros s' he' X Y Z W. eapply np_weaken; [|apply IH; [split; [rewrite X, Y; apply Hi|rewrite X; apply Hi]|lia]].
+    intros y (P & Q & K). split; [congruence|]. split; [lia|]. intros lo Hlo Hk.
+    assert (Htx : txs s' = txs st) by (unfold txs; rewrite X; reflexivity). rewrite Htx in K.
+    apply K; [lia|]. rewrite W, Hc. unfold push_child. destruct (b_node st) as [k0 m0 a0 e0 cs0]. cbn [set_children n_children] in *.
+    eapply kids_ok_weaken; [apply le_n| |apply (kids_ok_push _ lo line (b_line st1)); [lia|lia| |exact Hb]]; [lia|].
+    eapply kids_ok_weaken; [apply le_n| |exact Hk]. lia. }
   cbn [b_line b_max set_tight].
   destruct ((b_line st1 <? b_max st1)%nat && is_empty (set_tight st1 (negb he)) (b_line st1)) eqn:Hnext.
   - apply andb_true_iff in Hnext. destruct Hnext as [Hn1 _]. apply PeanoNat.Nat.ltb_lt in Hn1.
-    apply Hrec; cbn [b_lines b_max b_line set_line set_tight]; [assumption|assumption|lia].
-  - apply Hrec; cbn [b_lines b_max b_line set_tight]; [assumption|assumption|lia].
+    apply Hrec; cbn [b_lines b_max b_line b_node set_line set_tight]; try assumption; try reflexivity; lia.
+  - apply Hrec; cbn [b_lines b_max b_line b_node set_tight]; try assumption; try reflexivity; lia.
 Qed.
 
 Lemma np_tokenize_body st : binv st -> (b_line st <= b_max st)%nat -> np (tsafe st) (tokenize_body cfg T st).
@@ -773,4 +922,31 @@ Proof.
   pose proof (block_parse_never_panics fuel cfg texts root refs Hc) as Hp.
   destruct (block_parse fuel cfg texts root refs) as [[k| |]|x]; cbn in Ht; try contradiction; [exfalso; apply (Hp k); reflexivity|].
   eexists. reflexivity.
+Qed.
+
+(* ------------------------------------------------------------------ *)
+(* C05, block level: the ranges of the block tree                        *)
+
+Lemma mk_line_text t : l_text (mk_line t) = t.
+Proof. unfold mk_line. destruct (leading_ws t 0 0). reflexivity. Qed.
+
+(* every block the block pass returns has a range made of two positions of the line texts, start before end; children lie
+   within the lines of their parent; siblings occupy strictly increasing, disjoint line ranges -- every document, every
+   chain without the reference-definition rule, every limit and fuel *)
+Theorem block_parse_ranges fuel cfg texts refs root' refs' : Forall (fun r => r <> R_REF) (bc_chain cfg) ->
+  block_parse fuel cfg texts (mk KRoot None []) refs = inr (root', refs') ->
+  kids_ok texts 0 (length texts) (n_children root').
+Proof.
+  intros Hc. unfold block_parse. cbv zeta.
+  set (st0 := BState (map mk_line texts) (mk KRoot None []) 0 0 (length (map mk_line texts)) false None 0 refs).
+  assert (Hi : binv st0).
+  { split; [cbn [b_max b_lines st0]; lia|]. intros l r H. cbn [b_lines st0] in H.
+    apply nth_error_In in H. apply in_map_iff in H. destruct H as (t & <- & _). apply mk_line_wf. }
+  pose proof (btokenize_safe cfg Hc fuel st0 Hi ltac:(cbn [b_line b_max st0]; lia)) as H.
+  destruct (btokenize fuel cfg st0) as [e|st'] eqn:E; cbn [bind ret]; [discriminate|]. intros Heq. injection Heq as <- <-.
+  cbn [np] in H. destruct H as (_ & Hline & Hk). specialize (Hk 0%nat (le_n _) I).
+  cbn [b_line b_max st0] in Hline, Hk. rewrite map_length in Hline.
+  assert (Htx : txs st0 = texts).
+  { unfold txs. cbn [b_lines st0]. rewrite map_map. rewrite <- (map_id texts) at 2. apply map_ext. apply mk_line_text. }
+  rewrite Htx in Hk. eapply kids_ok_weaken; [apply le_n|exact Hline|exact Hk].
 Qed.
